@@ -543,7 +543,9 @@ func (mr MeshReader) Read(reader io.Reader) (*modeling.Mesh, error) {
 		mesh = reader.UpdateMesh(mesh)
 	}
 
-	if len(uvs) == len(indices) {
+	// Only per-corner texture coordinates force an unweld; a face element
+	// without faces has none (and 0 == 0 must not discard the vertices)
+	if len(uvs) > 0 && len(uvs) == len(indices) {
 		mesh = mesh.
 			Transform(meshops.UnweldTransformer{}).
 			SetFloat2Attribute(modeling.TexCoordAttribute, uvs)
